@@ -136,10 +136,15 @@ class _FakePsutil(object):
 
     @classmethod
     def disk_partitions(cls, all=False):
+        """a mount point whose last component starts with 'net' is an NFS share: like the real psutil, it is reported
+        only with all=True (all=False lists the file systems of physical devices only)"""
         out = []
         for mp in ENV.mounts:
             if mp == '/':
                 out.append(cls.sdiskpart('/dev/sda1', '/', 'ext4', 'rw'))
+            elif mp.rstrip('/').rsplit('/', 1)[-1].startswith('net'):
+                if all:
+                    out.append(cls.sdiskpart('server:/export' + mp, mp, 'nfs4', 'rw,vers=4.2'))
             else:
                 out.append(cls.sdiskpart('/dev/sdz2', mp, 'btrfs', 'rw,subvol=' + mp))
         return out
@@ -156,6 +161,34 @@ class _FakePsutilInstalled(object):
             sys.modules.pop('psutil', None)
         else:
             sys.modules['psutil'] = self.saved
+        return False
+
+
+SIGNAL_HANDLERS = {}
+
+
+class _VirtualSignals(object):
+    """signal.signal / signal.getsignal act on a per-run table while main() runs: a handler the command installs is
+    recorded (and later invoked by scen.SignalHook when the modelled signal arrives), never installed in this process"""
+
+    def __enter__(self):
+        import signal
+        SIGNAL_HANDLERS.clear()
+        self.saved = (signal.signal, signal.getsignal)
+
+        def fake_signal(signum, handler):
+            old = SIGNAL_HANDLERS.get(int(signum), signal.SIG_DFL)
+            SIGNAL_HANDLERS[int(signum)] = handler
+            return old
+
+        def fake_getsignal(signum):
+            return SIGNAL_HANDLERS.get(int(signum), signal.SIG_DFL)
+        signal.signal, signal.getsignal = fake_signal, fake_getsignal
+        return self
+
+    def __exit__(self, *a):
+        import signal
+        signal.signal, signal.getsignal = self.saved
         return False
 
 
@@ -278,7 +311,7 @@ def _call_main(spec):
     code, exc = None, None
     try:
         try:
-            with _VirtualOsClock(), _FakePsutilInstalled():
+            with _VirtualOsClock(), _FakePsutilInstalled(), _VirtualSignals():
                 rc = main()
             code = 0 if rc is None else rc
         except SystemExit as e:
